@@ -151,7 +151,8 @@ tables (`serde_leniency_counterexample`). -/
 def FullStatementKinds : Prop := ∀ (s : Schema) (t : TV), decodeSerde false s t = decode s t
 
 /-- **M7 (the model is the strict reader), partial: documents that do not put an array where the schema has a struct
-or a table where it has a unit-variant enum (along the schema-directed walk).** On those documents every clause above
+or a table where it has a unit-variant enum, and spell every URI reference as `uriparse` prints it (along the
+schema-directed walk).** On those documents every clause above
 (M1–M5) holds verbatim for the model of `toml::from_str`. -/
 theorem serde_reader_is_strict_reader_partial (s : Schema) (t : TV) (h : lenientFree s t = true) :
     decodeSerde false s t = decode s t := decodeSerde_eq false s t h
@@ -183,6 +184,17 @@ theorem serde_leniency_counterexample :
   intro h
   have := h Gen.S.LayerTypes (.arr [])
   simp [decodeSerde, decode, Gen.S.LayerTypes, decodeSeq, Except.map] at this
+
+/-- A third way the model differs from the kind-strict, verbatim reader (also excluded by `lenientFree`, also reproduced
+on the real code): package.toml URI references are re-printed by `uriparse` at parse time — registered scheme
+lower-cased, port re-printed as a number, `/` added after an authority with empty path — so the decoded value is not
+the document's text, while spellings such as an upper-case host, dot segments or percent-escapes are kept. -/
+theorem uri_respelled_at_parse_counterexample :
+    decodeSerde false Gen.S.PackageDescriptorDependency (.tbl [("uri", .str "HTTPS://h:0080")]) = .ok (.record [("uri", .str "https://h:80/")]) ∧
+    decode Spec.Cnb.packageDependency (.tbl [("uri", .str "HTTPS://h:0080")]) = .ok (.record [("uri", .str "HTTPS://h:0080")]) ∧
+    decodeSerde false Gen.S.PackageDescriptorDependency (.tbl [("uri", .str "docker://Docker.IO/a/../b/%7Ex")])
+      = .ok (.record [("uri", .str "docker://Docker.IO/a/../b/%7Ex")]) := by
+  refine ⟨by rfl, by rfl, by rfl⟩
 
 /-! ## non-vacuity: the hypotheses are met by concrete documents of the real formats -/
 
